@@ -30,6 +30,11 @@ def log(msg):
     print("[check] %s" % msg, flush=True)
 
 
+def nl_lines(text):
+    """split on LF only (str.splitlines also splits on U+2028, U+0085, ... which may occur inside JSON strings)"""
+    return [l for l in text.split("\n") if l]
+
+
 def sh(cmd, **kw):
     return subprocess.run(cmd, stdout=subprocess.PIPE, stderr=subprocess.STDOUT, text=True, **kw)
 
